@@ -124,6 +124,23 @@ def _atom_regex(atom, root):
                 return v.wrap("%s%s*" % (re.escape(c), v.dot))
             return v.wrap("%s*%s" % (v.dot, re.escape(c)))
         return None
+    if kind == "eq" and _is_const_str(atom[2]) and isinstance(
+            atom[1], tuple) and atom[1] and atom[1][0] == "slice" \
+            and len(atom[1]) == 4:
+        # x[:n] == c  (len(c) == n)  is  x.startswith(c);  x[-n:] == c  is
+        # x.endswith(c)
+        _, base, lo, hi = atom[1]
+        c = atom[2][1]
+        v = _view(base, root)
+        if v is None or not c:
+            return None
+        if any(ch in v.chars for ch in c) and v.dot != "[^\\n]":
+            return False
+        if lo is None and hi == ("const", len(c)):
+            return v.wrap("%s%s*" % (re.escape(c), v.dot))
+        if hi is None and lo == ("const", -len(c)):
+            return v.wrap("%s*%s" % (v.dot, re.escape(c)))
+        return None
     if kind == "eq" and _is_const_str(atom[2]):
         v = _view(atom[1], root)
         if v is None:
